@@ -457,6 +457,14 @@ static SSL_CTX *load_ssl_ctx(const char *cert_data, const char *key_data,
 
     SSL_CTX_set_session_cache_mode(ssl_ctx, SSL_SESS_CACHE_OFF);
 
+#ifdef HAS_TLS_1_3
+    /* Sessions are never resumed. A TLS 1.3 server would still send
+       session tickets after the handshake; left unread by a client
+       that only sends, they turn that client's close into a reset,
+       and the server loses data it has not read yet. */
+    SSL_CTX_set_num_tickets(ssl_ctx, 0);
+#endif
+
     if (install_cert(ssl_ctx, cert_data, log_ref) < 0)
 	goto err_free;
 
